@@ -22,6 +22,7 @@ class Analysis:
     def __init__(self, prog: Optional[Program] = None):
         self.prog = prog or Program()
         self.res = Resolver(self.prog)
+        self.canonical_calls = self._canonicalise_calls()
         self.cg = CallGraph(self.prog, self.res)
         self._exc: Optional[ExcAnalysis] = None
         self._cfgs: Dict[Tuple[str, str], CFG] = {}
@@ -124,10 +125,97 @@ class Analysis:
         return self.res.callees(call)
 
     def kw(self, call: ast.Call, name: str) -> Optional[ast.expr]:
+        """The argument bound to parameter `name`: the keyword, or — calls are kept in canonical positional form —
+        the positional argument at that parameter's place in the callee's signature."""
         for k in call.keywords:
             if k.arg == name:
                 return k.value
+        sig = self.signature(call)
+        if sig is not None and name in sig:
+            i = sig.index(name)
+            if i < len(call.args) and not any(isinstance(a, ast.Starred) for a in call.args[:i + 1]):
+                return call.args[i]
         return None
+
+    def kwmap(self, call: ast.Call) -> Dict[str, ast.expr]:
+        """name → argument for every argument whose parameter name is known (keywords, and positionals through the signature)."""
+        out: Dict[str, ast.expr] = {}
+        sig = self.signature(call)
+        if sig is not None:
+            for p_, a in zip(sig, call.args):
+                if isinstance(a, ast.Starred):
+                    break
+                out[p_] = a
+        for k in call.keywords:
+            if k.arg is not None:
+                out[k.arg] = k.value
+        return out
+
+    # signatures of the library calls whose arguments rules look at positionally
+    _EXT_SIGS = {
+        "shutil.copytree": ["src", "dst"], "shutil.copy2": ["src", "dst"], "shutil.copy": ["src", "dst"],
+        "shutil.copyfile": ["src", "dst"], "shutil.move": ["src", "dst"], "os.rename": ["src", "dst"],
+        "os.replace": ["src", "dst"], "shutil.rmtree": ["path"], "os.kill": ["pid", "sig"], "os.killpg": ["pgid", "sig"],
+    }
+
+    def signature(self, call: ast.Call) -> Optional[List[str]]:
+        """Names of the positional parameters the call's arguments bind to (receiver excluded), when every possible
+        callee agrees on them."""
+        if not hasattr(call, "_module"):
+            return None
+        try:
+            cs = self.res.callees(call)
+        except Exception:
+            return None
+        sigs = []
+        for c in cs:
+            if c in self.prog.functions:
+                f = self.prog.functions[c]
+            elif c in self.prog.classes:
+                f = self.prog.find_method(c, "__init__")
+                if f is None:
+                    return None
+            elif c in self._EXT_SIGS:
+                sigs.append(list(self._EXT_SIGS[c]))
+                continue
+            else:
+                return None
+            a = f.node.args
+            if a.vararg is not None:
+                return None
+            params = [x.arg for x in a.posonlyargs + a.args]
+            if f.cls is not None and not f.is_static and params and params[0] in ("self", "cls"):
+                if not isinstance(call.func, ast.Name) or f.name == "__init__":
+                    params = params[1:]
+            sigs.append(params)
+        if not sigs or any(s_ != sigs[0] for s_ in sigs[1:]):
+            return None
+        return sigs[0]
+
+    def _canonicalise_calls(self) -> int:
+        """Calls are put in one canonical form: an argument passed by keyword to a positional parameter is moved to its
+        position when every parameter before it is supplied too (`f(a, y=c, x=b)` → `f(a, b, c)` for `def f(p, x, y)`).
+        Rules read `call.args[i]` / `A.kw(call, name)`; both see the same argument whichever spelling the source uses."""
+        n = 0
+        for m in self.prog.modules.values():
+            for call in ast.walk(m.tree):
+                if not isinstance(call, ast.Call) or not call.keywords or not hasattr(call, "_module"):
+                    continue
+                if any(k.arg is None for k in call.keywords) or any(isinstance(a, ast.Starred) for a in call.args):
+                    continue
+                sig = self.signature(call)
+                if sig is None:
+                    continue
+                kws = {k.arg: k for k in call.keywords}
+                moved = False
+                while len(call.args) < len(sig) and sig[len(call.args)] in kws:
+                    k = kws.pop(sig[len(call.args)])
+                    call.keywords.remove(k)
+                    k.value._parent = call  # type: ignore[attr-defined]
+                    call.args.append(k.value)
+                    moved = True
+                n += moved
+        return n
 
     def bind_args(self, call: ast.Call, callee: FunctionInfo) -> Dict[str, ast.expr]:
         """Bind the arguments of a call to the parameter names of the callee."""
@@ -895,14 +983,32 @@ def strparts(e: ast.expr) -> Optional[List[str]]:
         except ValueError:
             return None
         return _merge_lits(out)
+    # ''.join([a, b, c]) is a + b + c
+    if isinstance(e, ast.Call) and isinstance(e.func, ast.Attribute) and e.func.attr == "join" and isinstance(e.func.value, ast.Constant) \
+            and e.func.value.value == "" and len(e.args) == 1 and not e.keywords and isinstance(e.args[0], (ast.List, ast.Tuple)) \
+            and not any(isinstance(x, ast.Starred) for x in e.args[0].elts):
+        out = []
+        for x in e.args[0].elts:
+            sub = strparts(x)
+            if sub is None:
+                return None
+            out.extend(sub)
+        return _merge_lits(out)
     return [norm(e)]
+
+
+def _is_str_lit(p_: str) -> bool:
+    try:
+        return isinstance(ast.literal_eval(p_), str)
+    except Exception:
+        return False
 
 
 def _merge_lits(parts: List[str]) -> List[str]:
     out: List[str] = []
     for p_ in parts:
-        if out and out[-1].startswith("'") and p_.startswith("'"):
-            out[-1] = repr(eval(out[-1]) + eval(p_))  # both are reprs of str literals produced above
+        if out and _is_str_lit(out[-1]) and _is_str_lit(p_):
+            out[-1] = repr(ast.literal_eval(out[-1]) + ast.literal_eval(p_))  # both are reprs of str literals produced above
         else:
             out.append(p_)
     return out
